@@ -500,12 +500,34 @@ impl Parser {
                 while !self.is_p("}") {
                     let mut a = Vec::new();
                     self.skip_attributes(&mut a)?;
+                    // a member function template: the header names no parameter that the body could use
+                    let mut member_template = false;
+                    if self.eat_id("template") {
+                        self.expect_p("<")?;
+                        let mut depth = 1;
+                        while depth > 0 {
+                            match self.next() {
+                                Tok::P("<") => depth += 1,
+                                Tok::P(">") => depth -= 1,
+                                Tok::Eof => return Err("unterminated template header".into()),
+                                _ => {}
+                            }
+                        }
+                        member_template = true;
+                        self.skip_attributes(&mut a)?;
+                    }
                     let ty = self.parse_type()?;
                     // a member function
                     if matches!(self.peek(), Tok::Id(_)) && matches!(self.peek_at(1), Tok::P("(")) {
                         let mname = self.ident()?;
-                        methods.push(self.function(ty, mname, false, a)?);
+                        if member_template {
+                            self.templates.insert(mname.clone());
+                        }
+                        methods.push(self.function(ty, mname, member_template, a)?);
                         continue;
+                    }
+                    if member_template {
+                        return Err("template header in front of a data member".into());
                     }
                     loop {
                         let n = self.ident()?;
